@@ -3,8 +3,12 @@ import LunaVerif.Model.Periph.PhyReset
 open LunaVerif LunaVerif.Proto LunaVerif.PhyReset
 
 /-- config line: `# reset_cycles stop_cycles power_on`; input line: `trigger`;
-output line: `phy_reset phy_stop`. -/
+output line: `phy_reset phy_stop`.  `trigger` = 2: no trigger, and the harness applies a synchronous reset of the
+controller's clock domain in this cycle (ResetInserter): the outputs of the cycle are those of the current state,
+the next state is the power-on state `init c`. -/
 def main : IO Unit :=
   runDriver (σ := Config × State)
     (fun cfg => let c : Config := ⟨fld cfg 0, fld cfg 1, n2b (fld cfg 2)⟩; (c, init c))
-    (fun (c, s) i => let (s', o) := step c s (n2b (fld i 0)); ((c, s'), [b2n o.phyReset, b2n o.phyStop]))
+    (fun (c, s) i =>
+      let (s', o) := step c s (fld i 0 == 1)
+      ((c, if fld i 0 == 2 then init c else s'), [b2n o.phyReset, b2n o.phyStop]))
